@@ -6,6 +6,8 @@ import ChythonModel.Proofs.C16Overlap
 import ChythonModel.Proofs.C16Union
 import ChythonModel.Model.C16Worklist
 import ChythonModel.Proofs.C16Worklist
+import ChythonModel.Model.C16Ions
+import ChythonModel.Proofs.C16Ions
 /-!
 # C16 — template application edits exactly what the template names
 
@@ -815,6 +817,31 @@ theorem worklist_reports_reachable_set (S : Sys σ ρ κ) (E : σ → σ → Pro
     obtain ⟨r', hr', hk⟩ := worklist_complete_up_to_key S E hC limit init fuel out h d it r h1 h2
     exact List.mem_map.2 ⟨r', hr', hk⟩
 
+/-- **one-shot mode**: the reactions yielded have pairwise distinct `str`, each is produced by one of the initial choices of
+reactants, and every key any initial choice produces is reported — no hypothesis (nothing is re-queued, so no congruence is
+needed) -/
+theorem one_shot_reports_all_keys_once (S : Sys σ ρ κ) (init : List σ) :
+    ((oneShot S init).map S.key).Nodup ∧
+    (∀ r ∈ oneShot S init, ∃ it ∈ init, r ∈ S.step it) ∧
+    (∀ k, k ∈ (oneShot S init).map S.key ↔ ∃ it ∈ init, ∃ r ∈ S.step it, S.key r = k) := by
+  have hsound : ∀ r ∈ oneShot S init, ∃ it ∈ init, r ∈ S.step it := by
+    intro r hr
+    obtain ⟨it, hp, _⟩ := scan_out_succ S false (pairs S init) [] [] r hr
+    obtain ⟨h1, h2⟩ := (mem_pairs S init it r).1 hp
+    exact ⟨it, h1, h2⟩
+  refine ⟨(scan_out_fresh S false (pairs S init) [] []).1, hsound, ?_⟩
+  intro k
+  constructor
+  · intro hk
+    obtain ⟨r, hr, rfl⟩ := List.mem_map.1 hk
+    obtain ⟨it, h1, h2⟩ := hsound r hr
+    exact ⟨it, h1, r, h2, rfl⟩
+  · rintro ⟨it, hit, r, hr, rfl⟩
+    have := scan_pairs_seen S false (pairs S init) [] [] (it, r) ((mem_pairs S init it r).2 ⟨hit, hr⟩)
+    rcases (scan_seen_iff S false (pairs S init) [] [] _).1 this with h | h
+    · simp at h
+    · exact h
+
 end worklist
 
 /-! The hypotheses are satisfiable by a non-trivial instance. A dihalide X–R–X' under a substitution template: queue item 0 is the
@@ -842,6 +869,7 @@ example : worklist exSys 10 4 [0] = some [(0, 1), (0, 2), (1, 3)] := by decide
 example : worklist exSys 10 3 [0] = none := by decide
 example : work exSys 10 (max 10 1) 0 [0] [] = 4 := by decide
 example : worklist exSys 1 1 [0] = some [(0, 1), (0, 2)] := by decide
+example : oneShot exSys [1, 2, 0] = [(1, 3), (0, 1), (0, 2)] := by decide
 
 /-- the congruence hypothesis of `worklist_complete_up_to_key` cannot be dropped: items 0 and 1 yield reactions with the same
 key 5, only item 1's has a successor (item 2, key 6). The second reaction is de-duplicated, item 2 is never queued, key 6 is
@@ -858,6 +886,66 @@ example : worklist exBad 10 5 [0, 1] = some [(0, 5)] ∧ ReachItem exBad 10 [0, 
    by decide⟩
 
 end worklist_example
+
+/-! ## `ReactionContainer.contract_ions()` ("try to keep salts", called by `Reactor.__call__` when a match gives several product
+molecules)
+
+`C16I.contractSide mols` / `C16I.contractProducts ankey ctkey mols` are the reactant / product side of `contract_ions()` on the
+molecules seen as `(id, equality class, total charge)`; a group `[a, b, c]` of the result is the molecule `a | b | c`
+(`Graph.union`, see `union_isomorphic_disjoint_copies`). The driver runs both (op `ions`) against the real method. -/
+section ions
+open ChythonModel.Model.C16I ChythonModel.Proofs.C16I
+
+/-- **never raises**: for every list of molecules (any charges, any equalities, any ordering keys) both sides succeed — the
+`pop()`s of the pairing loops never hit an empty list, because `_sift_ions` hands over the true total and correctly signed ions -/
+theorem contract_ions_never_raises (mols : List Ion) (ankey ctkey : Ion → Int) :
+    (∃ r, contractSide mols = .ok r) ∧ (∃ r, contractProducts ankey ctkey mols = .ok r) :=
+  ⟨contractSide_total mols, contractProducts_total ankey ctkey mols⟩
+
+/-- **nothing lost, nothing invented**: the groups of the result are non-empty and together are exactly the input molecules
+(as a multiset) — every molecule ends up in exactly one product molecule / salt; both sides -/
+theorem contract_ions_partition (mols : List Ion) (ankey ctkey : Ion → Int) (r : List (List Ion)) :
+    (contractSide mols = .ok r → r.flatten.Perm mols ∧ ∀ g ∈ r, g ≠ []) ∧
+    (contractProducts ankey ctkey mols = .ok r → r.flatten.Perm mols ∧ ∀ g ∈ r, g ≠ []) :=
+  ⟨contractSide_perm, contractProducts_perm⟩
+
+/-- **neutral molecules are untouched**: every uncharged molecule stays a molecule of its own; the result is either the input
+unchanged or the neutral molecules (in their order) followed by salts made of charged molecules only -/
+theorem contract_ions_neutral_untouched (mols : List Ion) (r : List (List Ion)) (h : contractSide mols = .ok r) :
+    (∀ m ∈ mols, m.charge = 0 → [m] ∈ r) ∧
+    (r = mols.map (fun m => [m]) ∨
+     ∃ salts, r = (mols.filter (fun m => m.charge == 0)).map (fun m => [m]) ++ salts ∧
+       ∀ s ∈ salts, ∀ m ∈ s, m.charge ≠ 0) :=
+  contractSide_neutral_kept h
+
+/-- **salts are neutral**: when the side is charge-balanced and something was contracted, every molecule of the result has
+total charge 0 -/
+theorem contract_ions_salts_neutral (mols : List Ion) (r : List (List Ion)) (h : contractSide mols = .ok r)
+    (hbal : chg mols = 0) (hc : r ≠ mols.map (fun m => [m])) : ∀ g ∈ r, chg g = 0 :=
+  contractSide_charges h hbal hc
+
+/-- **when nothing is contracted** (`_contract_ions` returns `None`): no anion, or no cation, or an excess of positive charge
+with more than one cation, or an excess of negative charge with more than one anion, or a balanced mixture of several
+different anions and several different cations; in every other case one salt (unbalanced: `total ≠ 0`) or neutral salts
+(balanced) are formed -/
+theorem contract_ions_ambiguity_rule (anions cations : List Ion) (total : Int) :
+    (contractIons anions cations total = .ok none ↔
+      anions = [] ∨ cations = [] ∨ (total > 0 ∧ cations.length > 1) ∨ (total < 0 ∧ anions.length > 1) ∨
+      (total = 0 ∧ distinct anions > 1 ∧ distinct cations > 1)) ∧
+    (∀ salts, total = chg anions + chg cations → contractIons anions cations total = .ok (some salts) →
+      (total = 0 → ∀ s ∈ salts, chg s = 0) ∧ (total ≠ 0 → ∃ s, salts = [s] ∧ chg s = total)) :=
+  ⟨contractIons_none_iff anions cations total, fun _ ht h => contractIons_charges ht h⟩
+
+/-- the error branch of the pairing loop is real (it is `_sift_ions` that keeps `contract_ions` away from it) -/
+example : go none [⟨1, 1, -2⟩] [⟨2, 2, 1⟩] [] = .error .indexError := by simp [go]
+
+/-- non-trivial instances: NaCl + water; Ca²⁺ with two chlorides (popped from the end); ambiguous mixture unchanged -/
+example : contractSide [⟨1, 1, 1⟩, ⟨2, 2, -1⟩, ⟨3, 3, 0⟩] = .ok [[⟨3, 3, 0⟩], [⟨1, 1, 1⟩, ⟨2, 2, -1⟩]] := by
+  simp [contractSide, siftIons, contractIons, distinct, List.eraseDups_cons, go]
+example : contractSide [⟨1, 1, 2⟩, ⟨2, 2, -1⟩, ⟨3, 2, -1⟩] = .ok [[⟨1, 1, 2⟩, ⟨3, 2, -1⟩, ⟨2, 2, -1⟩]] := by
+  simp [contractSide, siftIons, contractIons, distinct, List.eraseDups_cons, go]
+
+end ions
 
 /-- the executable well-formedness test the driver applies to every structure (`Mol.WF`: unique keys, adjacency keyed by
 the atoms, symmetric with the same bond on both sides, no loops) implies the hypotheses of the frame theorems, and the
